@@ -237,7 +237,13 @@ func init() {
 		if !types.Identical(pt.Elem().Underlying(), rec.t.Underlying()) {
 			return errValue(fmt.Sprintf("gob: type mismatch: %s vs %s", pt.Elem(), rec.t))
 		}
-		store(pt.Elem(), dst.v.(*value), gobQuirks(rec.t, deepCopy(rec.v)))
+		nv := gobQuirks(rec.t, deepCopy(rec.v))
+		if _, isStruct := rec.t.Underlying().(*types.Struct); isStruct {
+			// gob does not transmit zero-valued struct fields, and Decode leaves
+			// the destination's fields that were not transmitted as they are
+			nv = gobMergeStruct(rec.t, load(pt.Elem(), dst.v.(*value)), nv)
+		}
+		store(pt.Elem(), dst.v.(*value), nv)
 		return iface{}
 	}
 	externals[hpkg+"vFsReset"] = func(fr *frame, a []value) value {
@@ -343,4 +349,89 @@ func init() {
 		i := strings.LastIndex(p, "/")
 		return tuple{p[:i+1], p[i+1:]}
 	}
+}
+
+// gobIsZero: the value is the zero value of its type (not transmitted by gob
+// when it is a struct field).  A symbolic value counts as non-zero.
+func gobIsZero(v value) bool {
+	switch x := v.(type) {
+	case nil:
+		return true
+	case bool:
+		return !x
+	case int:
+		return x == 0
+	case int8:
+		return x == 0
+	case int16:
+		return x == 0
+	case int32:
+		return x == 0
+	case int64:
+		return x == 0
+	case uint:
+		return x == 0
+	case uint8:
+		return x == 0
+	case uint16:
+		return x == 0
+	case uint32:
+		return x == 0
+	case uint64:
+		return x == 0
+	case uintptr:
+		return x == 0
+	case float64:
+		return x == 0
+	case string:
+		return x == ""
+	case symstr:
+		return len(x.b) == 0
+	case []value:
+		return len(x) == 0
+	case *omap:
+		return x == nil || x.len() == 0
+	case *value:
+		return x == nil
+	case iface:
+		return x.t == nil
+	case structure:
+		for _, f := range x {
+			if !gobIsZero(f) {
+				return false
+			}
+		}
+		return true
+	case array:
+		for _, f := range x {
+			if !gobIsZero(f) {
+				return false
+			}
+		}
+		return true
+	}
+	return false
+}
+
+func gobMergeStruct(t types.Type, cur, nv value) value {
+	cs, ok1 := cur.(structure)
+	ns, ok2 := nv.(structure)
+	if !ok1 || !ok2 || len(cs) != len(ns) {
+		return nv
+	}
+	st := t.Underlying().(*types.Struct)
+	out := make(structure, len(ns))
+	for i := range ns {
+		switch {
+		case gobIsZero(ns[i]):
+			out[i] = cs[i] // not transmitted: the destination keeps what it had
+		default:
+			if _, nested := st.Field(i).Type().Underlying().(*types.Struct); nested && st.Field(i).Type().String() != "time.Time" {
+				out[i] = gobMergeStruct(st.Field(i).Type(), cs[i], ns[i])
+			} else {
+				out[i] = ns[i]
+			}
+		}
+	}
+	return out
 }
